@@ -1,15 +1,21 @@
 import Orb.Proto
 import Orb.Tile
 import Orb.TileCover
+import Orb.TileGeo
+import Driver.C13
 import Std.Data.HashSet
 import Std.Data.HashMap
 
 /-!
   Driver for C14 (tile covers and MergeUp).
 
-  `cover <zoom> <gval lon/lat> => <n> (fx fy)*n ; ok <k> (x y)*k | err uneven | panic`
-      the n fractions are `maptile.Fraction(p, zoom)` of the n vertices in traversal order
-  `coll  <zoom> <C k geoms> => <n> fractions ; <member result> ; … ; <collection result>`
+  `cover <zoom> <gval lon/lat> => <n> (fx fy)*n ; M <n> (sa sv la lv)*n ; ok <k> (x y)*k | err uneven | panic`
+      the n fractions are `maptile.Fraction(p, zoom)` of the n vertices in traversal order; the `M` segment
+      carries, per vertex, Go's own libm values on the path of `Fraction` (sin argument / value, log
+      argument / value): the shipped fraction is cross-checked against C13's model of `Fraction`
+      (`Orb.TileGeo.fraction`) on top of them, bit for bit (`fracCheck`)
+  `coll  <zoom> <C k geoms> => <n> fractions ; M … ; <member result> ; … ; <collection result>`
+      members may be the token `nil` (a nil-interface member, at any depth: see `NG`)
   `merge <min> <reps> <k> (x y z v)*k => same|differ ; <m> (x y z)*m`      (MergeUp)
   `mergep <min> <count> <reps> <k> (x y z v)*k => same|differ ; <m> (x y z)*m`
 -/
@@ -440,6 +446,83 @@ where
 def runModel (z : Nat) (tab : FracTab) (fuel : Nat) (g : Geom UInt64) : CRes (List Tile) :=
   cover opsF (fracF tab) z fuel (mapGeom Float.ofBits g)
 
+/-! ### the shipped fractions against C13's model of `maptile.Fraction`
+
+  The harness ships `maptile.Fraction(p, z)` of every vertex and every clause below is judged on those
+  fractions (the ROW of the point clause in particular), so without this check the latitude half of
+  `Fraction` would be compared with nothing here.  Every case therefore also carries, per vertex, the
+  values Go's `math.Sin` / `math.Log` return on the path of `Fraction` (computed by a mirror of its two
+  expressions in the harness), and the Float twin of `Orb.TileGeo.fraction` — the model C13 proves its
+  clamp theorems about — redoes the arithmetic on top of them (`Driver.C13.mkEnv`, exactly what C13's
+  driver does) and must reproduce the shipped fraction bit for bit.  A libm argument the vertex's
+  entry does not contain (`oracle-miss`) or a different value is a `diff`. -/
+
+abbrev LibmRow := UInt64 × UInt64 × UInt64 × UInt64
+
+def libmP : P (List LibmRow) := fun ts =>
+  match ts with
+  | "M" :: ts => counted (fun ts => do
+      let (a, ts) ← bits ts
+      let (b, ts) ← bits ts
+      let (c, ts) ← bits ts
+      let (d, ts) ← bits ts
+      pure ((a, b, c, d), ts)) ts
+  | _ => none
+
+/-- `none` = every shipped fraction is the model's -/
+def fracCheck (z : Nat) (ps fs : List (Pt UInt64)) (lm : List LibmRow) : Option String :=
+  if lm.length != ps.length then some "fraction-table-arity" else
+  ((ps.zip fs).zip lm).findSome? fun ((p, f), (sa, sv, la, lv)) =>
+    let E := Driver.C13.mkEnv #[⟨"s", sa, sv⟩, ⟨"l", la, lv⟩]
+    let m := Orb.TileGeo.fraction E ⟨Driver.C13.ofB p.x, Driver.C13.ofB p.y⟩ z
+    if !(m.x.ok && m.y.ok) then some "fraction oracle-miss"
+    else if Driver.C13.sameF m.x.v f.x && Driver.C13.sameF m.y.v f.y then none
+    else some s!"fraction-of {showPt p} is {floatToHex m.x.v} {floatToHex m.y.v}"
+
+/-! ### nil-INTERFACE members of collections (local reader)
+
+  `orb.Collection{nil, ls}` travels as `C 2 nil LS …` (harness/proto.go writes and reads the token
+  `nil` for a nil member); the shared parser `Orb.Proto.geom` cannot express it (`Geom` has no nil
+  constructor).  The reader below accepts `nil` as a member of a collection at any nesting depth and
+  DROPS it before the value reaches the model: the model-level statement is "a nil member contributes
+  nothing" — its own cover is the empty set (`ok 0`) and the cover of the collection is the union of
+  the covers of the other members.  That is what the unchanged Go code does: tilecover.Geometry
+  (helpers.go:13) returns `(nil, nil)` for a nil geometry, tilecover.Collection (helpers.go:82) recurses
+  through that guarded entry point and `Set.Merge(nil)` adds nothing.  The harness's vertex listing
+  (`c14Pts`) skips nil members too, so the fractions line up.  A panic is `propfail panic`. -/
+
+inductive NG where
+  | nil
+  | leaf (g : Geom UInt64)
+  | coll (ms : List NG)
+deriving Inhabited
+
+partial def ngeom : P NG := fun ts =>
+  match ts with
+  | "nil" :: ts => some (.nil, ts)
+  | "C" :: ts => do
+    let (n, ts) ← nat ts
+    let rec go : Nat → Toks → Option (List NG × Toks)
+      | 0, ts => some ([], ts)
+      | n+1, ts => do
+        let (g, ts) ← ngeom ts
+        let (gs, ts) ← go n ts
+        pure (g :: gs, ts)
+    let (gs, ts) ← go n ts
+    pure (.coll gs, ts)
+  | ts => (geom ts).map fun (g, ts) => (.leaf g, ts)
+
+/-- the value handed to the model: nil members dropped (`none` = the value itself is nil) -/
+partial def NG.drop : NG → Option (Geom UInt64)
+  | .nil => none
+  | .leaf g => some g
+  | .coll ms => some (.collection (ms.filterMap NG.drop))
+
+partial def NG.hasNil : NG → Bool
+  | .nil => true
+  | .leaf _ => false
+  | .coll ms => ms.any NG.hasNil
+
 def handleCover (inp out : Toks) : String :=
   match (do
     let (z, i) ← nat inp
@@ -448,21 +531,25 @@ def handleCover (inp out : Toks) : String :=
   | none => "bad input"
   | some (z, v) =>
     match splitSemi out with
-    | [fr, res] =>
+    | [fr, lmt, res] =>
       (match v with
        | .nilIface | .nilSlice _ =>
          if res == ["ok", "0"] then "ok triv-nil" else if res == ["panic"] then "propfail panic" else "diff ok 0"
        | .val g =>
-         match pts fr with
-         | none => "bad fractions"
-         | some (fs, _) =>
+         match pts fr, libmP lmt with
+         | none, _ => "bad fractions"
+         | _, none => "bad libm-table"
+         | some (fs, _), some (lm, _) =>
            let ps := allPts g
            if ps.length != fs.length then "bad fraction-count" else
            let tab := mkTab ps fs
            let model := showRes (runModel z tab (fuelOf fs) g)
            if model == "fuel" then "skip fuel" else
            let got := " ".intercalate res
-           let fin (s : String) : String := finish (model == got) model s
+           -- the shipped fractions must be the model's (C13's `fraction` on Go's libm values)
+           let fbad := fracCheck z ps fs lm
+           let model := match fbad with | some d => d ++ " ; " ++ model | none => model
+           let fin (s : String) : String := finish (fbad.isNone && model == got) model s
            fin <|
            if res == ["panic"] then "propfail panic" else
            if !(inDomain z fs) then
@@ -489,24 +576,36 @@ def handleCover (inp out : Toks) : String :=
 def handleColl (inp out : Toks) : String :=
   match (do
     let (z, i) ← nat inp
-    let (v, _) ← geom i
+    let (v, _) ← ngeom i
     pure (z, v)) with
   | none => "bad input"
-  | some (z, g) =>
-    match g, splitSemi out with
-    | .collection gs, fr :: rest =>
-      (match pts fr with
-       | none => "bad fractions"
-       | some (fs, _) =>
+  | some (z, ng) =>
+    match ng, splitSemi out with
+    | .coll ms, fr :: lmt :: rest =>
+      -- `g`: the collection with its nil-interface members dropped (at every depth); `gs`: its top-level
+      -- members in wire order, `none` for a nil one (whose own cover must be the empty set)
+      let g : Geom UInt64 := .collection (ms.filterMap NG.drop)
+      let gs : List (Option (Geom UInt64)) := ms.map NG.drop
+      let nmTag := if ng.hasNil then " nil-member" else ""
+      (match pts fr, libmP lmt with
+       | none, _ => "bad fractions"
+       | _, none => "bad libm-table"
+       | some (fs, _), some (lm, _) =>
          let ps := allPts g
          if ps.length != fs.length then "bad fraction-count" else
          if rest.length != gs.length + 1 then "bad member-count" else
          let tab := mkTab ps fs
          let fuel := fuelOf fs
-         let model := " ; ".intercalate ((gs.map fun m => showRes (runModel z tab fuel m)) ++ [showRes (runModel z tab fuel g)])
+         let memberModel (m : Option (Geom UInt64)) : String :=
+           match m with
+           | none => "ok 0"            -- tilecover.Geometry(nil, z) = (nil, nil)
+           | some m => showRes (runModel z tab fuel m)
+         let model := " ; ".intercalate ((gs.map memberModel) ++ [showRes (runModel z tab fuel g)])
          let got := " ; ".intercalate (rest.map (" ".intercalate ·))
          if (model.splitOn "fuel").length > 1 then "skip fuel" else
-         let fin (s : String) : String := finish (model == got) model s
+         let fbad := fracCheck z ps fs lm
+         let model := match fbad with | some d => d ++ " ; " ++ model | none => model
+         let fin (s : String) : String := finish (fbad.isNone && model == got) model s
          fin <|
          if rest.any (· == ["panic"]) then "propfail panic" else
          let members := rest.take gs.length
@@ -522,7 +621,9 @@ def handleColl (inp out : Toks) : String :=
              let u := members.foldl (fun (s : XYSet) r => ((parseOk r).getD []).foldl (fun s (x, y) => s.insert (enc x y)) s) {}
              let cs := mkSet cov
              if u.size != cs.size || !(cov.all fun (x, y) => u.contains (enc x y)) then "propfail collection-not-union"
-             else if gs.isEmpty then "ok triv-coll-empty" else "ok coll-union")
+             else if gs.isEmpty then "ok triv-coll-empty"
+             else if gs.all (·.isNone) then "ok triv-coll-only-nil" ++ nmTag
+             else "ok coll-union" ++ nmTag)
     | _, _ => "bad coll"
 
 /-! ### MergeUp -/
